@@ -270,7 +270,20 @@ def replay(path):
     print('replaying %s: obligation %s (unit %s, %s)' % (path, rp['obligation'], rp['unit'], rp['engine']))
     if rp.get('witness') and rp['witness'].get('values'):
         print('counterexample values:', json.dumps(rp['witness']['values']))
-    results = run_units(prop, 'quick', 8)
+    # re-run only the unit (and, for Kani, only the harness) the obligation belongs to - at the thorough tier so that every harness is visible
+    only_units, only_harness = None, None
+    for modname in PROPERTIES[prop]['units']:
+        try:
+            unit = importlib.import_module(modname).build(REPO)
+        except Exception:
+            continue
+        if getattr(unit, 'name', modname) == rp['unit'] or modname == rp['unit']:
+            only_units = [modname]
+            if isinstance(unit, klib.KaniUnit):
+                hs = [h['name'] for h in unit.harnesses if h['obligation'] == rp['obligation']]
+                only_harness = hs or None
+            break
+    results = run_units(prop, 'thorough' if only_harness else 'quick', 8, (), only_units, only_harness)
     for r in results:
         if r['unit'] != rp['unit']:
             continue
